@@ -61,7 +61,7 @@ CONF = {
                 big=[("session", 300, 3000)], fresh=True),
     "C12": dict(prefixes=("C12.",), builds=("pure",),
                 model=[("dedup", 400, 2500), ("dedupdirty", 500, 3500), ("dedupsync", 250, 1500), ("dedupself", 500, 2500),
-                       ("dedupcatch", 300, 2500)],
+                       ("dedupcatch", 300, 2500), ("dedupvar", 250, 2000)],
                 big=[("dedupdirty", 500, 2500)]),
 }
 
@@ -250,12 +250,14 @@ def main():
         if pid == "C12":
             if tier == "quick":
                 en = plang.enum_dedup(3, (1,), 2) + plang.enum_dedup(3, (2,), 2, bind="inst1", key=2, spell0=2) + \
-                    plang.enum_dedup(2, (1, 2), 2, body_kind=2, catching=True)
+                    plang.enum_dedup(2, (1, 2), 2, body_kind=2, catching=True) + plang.enum_dedup(2, (1,), 2, fn=11) + \
+                    plang.enum_dedup(2, (1,), 2, fn=11, bind="inst1", spell0=1)
             else:
                 en = plang.enum_dedup(3, (1, 2), 2) + plang.enum_dedup(2, (1, 2), 3) + plang.enum_dedup(3, (2,), 2, bind="inst1", key=2, spell0=2) + \
                     plang.enum_dedup(3, (1,), 2, bind="inst2", key=2, spell0=5) + plang.enum_dedup(3, (1,), 2, bind="static") + \
                     plang.enum_dedup(3, (1, 2), 2, body_kind=2, catching=True) + plang.enum_dedup(2, (1, 2), 2, body_kind=2) + \
-                    plang.enum_dedup(2, (2,), 2, catching=True)
+                    plang.enum_dedup(2, (2,), 2, catching=True) + plang.enum_dedup(3, (1,), 2, fn=11) + \
+                    plang.enum_dedup(2, (1, 2), 2, fn=11, bind="inst1", spell0=1) + plang.enum_dedup(2, (1,), 2, fn=11, bind="static")
             fam += [("enum_dedup", p) for p in en]
             cov["enumerated_family"] = "root yields [D, actor..]; every actor sequence over {wait, call, dirty+call}: %d programs, all schedules" % len(en)
         progs = [p for _, p in fam]
